@@ -22,7 +22,7 @@ import (
 )
 
 func TestMain(m *testing.M) {
-	ev.C().Rule("rapid: start instants (on a boundary, +-1ns, arbitrary) x intervals {1s,10s,7s,1m,1.5s,250ms,1h,2h} x the time zone the clock reports in (UTC, +05:30, +01:00, -03:30, +05:45, +03:25:45) x offsets in [0,interval) and beyond x advancement patterns (exact next-deadline steps, small steps, jumps over k intervals, a consumer that reads late). Layer 1: aligned ticker on a mock clock, arithmetic oracle on the tick values. Layer 2: real MetricFlusher with aligned flushing and a recording aggregator, clock stepped to the next deadline only while the flusher is parked. Layer 3: the same flusher under jumps of k intervals plus a fraction (landing between boundaries) and an aggregator flush that blocks while 1..3 further deadlines pass; exact tick model of the mock clock until the first slow flush, afterwards elapsed must be a positive multiple. Layer 4: the flusher on the real clock (10..25 ms intervals; real times carry monotonic readings), elapsed must be an exact positive multiple. Non-trivial = offset != 0 with a start within 1ns of a boundary, or a jump >= 2 intervals (layer 1), or a jump / slow consumer (layer 3), or offset != 0 (layer 4)")
+	ev.C().Rule("rapid: start instants (on a boundary, +-1ns, arbitrary) x intervals {1s,10s,7s,1m,1.5s,250ms,1h,2h} x the time zone the clock reports in (UTC, +05:30, +01:00, -03:30, +05:45, +03:25:45) x offsets in [0,interval) and beyond x advancement patterns (exact next-deadline steps, small steps, jumps over k intervals, a consumer that reads late). Layer 1: aligned ticker on a mock clock, arithmetic oracle on the tick values. Layer 2: real MetricFlusher with aligned flushing and a recording aggregator, clock stepped to the next deadline only while the flusher is parked. Layer 3: the same flusher under jumps of k intervals plus a fraction (landing between boundaries) and an aggregator flush that blocks while 1..3 further deadlines pass; exact tick model of the mock clock until the first slow flush, afterwards elapsed must be a positive multiple. Layer 4: the flusher on the real clock (10..25 ms intervals; real times carry monotonic readings), elapsed must be an exact positive multiple; binary layer: the gostatsd command with --flush-aligned, interval 2 s, generated --flush-offset and --hostname, stdout backend: the wall-clock phase at which five consecutive flushes are observed (late is possible, early is not). Non-trivial = offset != 0 with a start within 1ns of a boundary, or a jump >= 2 intervals (layer 1), or a jump / slow consumer (layer 3), or offset != 0 (layer 4)")
 	vt.Main(m)
 }
 
